@@ -26,12 +26,15 @@ SPEC_DIR = os.path.join(core.SPECS, "purity")
 def run_worker(build, poison, jobs, threads):
     d = core.scratch("ev_c19_")
     resf = os.path.join(d, "res.json")
-    env = dict(os.environ, OMP_NUM_THREADS=str(threads), PYTHONPATH="")
+    # passive waiting: idle OpenMP threads sleep instead of spinning (several workers with up to 16 threads each share
+    # the machine with other checks); the schedule of the parallel loops is unaffected
+    env = dict(os.environ, OMP_NUM_THREADS=str(threads), OMP_WAIT_POLICY="PASSIVE", GOMP_SPINCOUNT="0", PYTHONPATH="")
     p = subprocess.run([core.PY, os.path.join(core.VERIF, "harness", "purity_worker.py"), build,
                         "1" if poison else "0", resf], input=json.dumps(jobs), stdout=subprocess.PIPE,
                        stderr=subprocess.PIPE, text=True, env=env, timeout=3000)
     if p.returncode != 0 or not os.path.exists(resf):
-        raise core.MachineryError("purity worker failed: %s" % p.stderr[-2000:])
+        last = [l for l in p.stderr.splitlines() if l.startswith("JOB ")][-1:]
+        raise core.MachineryError("purity worker failed (last job %s): %s" % (last, p.stderr[-2500:]))
     return json.load(open(resf))
 
 
@@ -104,7 +107,7 @@ def run(ctx):
     # section of Calls x Histories that is replayed.  quick: every routine with ONE argument set, rotated by the seed
     # (the thorough tier replays every argument set); per call the mandatory histories (NaN pattern, no prior call,
     # 1 and 16 threads) plus `extra` histories taken at a seed-rotated stride through the enumeration.
-    extra = 3 if quick else 24
+    extra = 5 if quick else 24
     mand = [hh for hh in hists if not hh["prior"] and hh["byte"] == 255 and hh["threads"] in (1, 16)]
     rest = [hh for hh in hists if hh not in mand]
     pairs = []
